@@ -280,7 +280,7 @@ func emitCommon(p *core.Prog, r *core.Report, h *handlerInfo, san *ssa.Function,
 	// abstractly by the interpreter (an append through an alias of the buffer would otherwise be skipped silently)
 	sinks, _ := classifySinks(p, h, san)
 	for _, s := range sinks {
-		if s.Fn == san || s.Class == "sanitizer-internal" {
+		if s.Fn == san || s.Class == "sanitizer-internal" || (san != nil && onlyCalledFrom(p, s.Fn, map[*ssa.Function]bool{san: true})) {
 			continue
 		}
 		if !it.Visited[s.In.Pos()] {
